@@ -13,7 +13,7 @@ for m in $M; do
   cd /verif
   line="$m"
   for id in $ALL; do
-    ./check $id --tier quick --seed 0 >/verif/target/matrix.out 2>&1; rc=$?
+    VERIF_EVIDENCE_DIR=/verif/target/mutant-evidence ./check $id --tier quick --seed 0 >/verif/target/matrix.out 2>&1; rc=$?
     line="$line\t$id=$rc"
   done
   echo -e "$line" | tee -a $OUT
